@@ -36,7 +36,9 @@ def cell_diffs(a, b, eng_schema=None, limit=60):
 def main():
   args = json.loads(sys.argv[1])
   l = args["l"]
-  if args["profile"].startswith("ro:"):
+  if args["profile"].startswith("script:"):
+    rec = histories.run_script(args["profile"][7:], hooks={"keep_states": True})
+  elif args["profile"].startswith("ro:"):
     rec = histories.run_readonly_history(args["seed"], profile=args["profile"][3:], n_bundles=args["n_bundles"],
                                          hooks={"keep_states": True})
   elif args["profile"].startswith("fault:"):
